@@ -7,7 +7,8 @@ PROP = dict(
                        "C21_import_first_supplier", "C21_qualified_same_decl", "C21_clash_iff", "C21_clash_iff_own",
                        "C21_children_exact", "C21_child_visible_iff", "C21_filtered_child_invisible",
                        "C21_qualified_variant_same_decl", "C21_children_follow_decls", "C21_pattern_same_decl",
-                       "C21_arms_independent", "C21_clash_iff_members", "C21_defining_expression_outside"],
+                       "C21_arms_independent", "C21_clash_iff_members", "C21_defining_expression_outside",
+                       "C21_clash_count", "C21_import_decl"],
     harness_bin="c21",
     mismatch_is_violation=True,
     rule="(quick) 700 / (thorough) 12000 seeded multi-file programs built from an abstract description: 1-4 files, names from a "
@@ -49,10 +50,13 @@ PROP = dict(
     level_text="Theorems over all worlds and statement lists about a model of add_declaration/add_other_pred, "
                "resolve_imports_file, SymbolTable and resolve_names_stmt: the scope-stack algorithm computes textbook lexical "
                "scoping; the visible names of a file are exactly builtins, prelude, own declarations and what each import form "
-               "lets through; a prefix-qualified name reaches the declaration a plain import supplies; a clash is reported exactly "
-               "for names supplied twice; child namespaces (enum variants, interface methods, prefixes) are visible exactly when "
-               "their declaration is, and in a clash-free program a qualified variant pattern reaches the same enum as the "
-               "expression. Tied to /repo on every run by generated multi-file programs whose output names the "
+               "lets through; given that the prefix resolves to the `as` declaration of file m, a prefix-qualified name reaches the declaration "
+               "that `use m` supplies under that name; a name is among a file's reported clashes exactly when it is supplied at "
+               "least twice (builtins counted once); the NAMES of the visible child namespaces (enum variants, interface methods, "
+               "prefixes) are exactly those of the file's own types and of the types / prefix each import form lets through; and, "
+               "under the hypotheses that no file declares a name twice and no clash is reported for the file, the child namespace "
+               "found under a name is the one of the declaration found under it, so an unprefixed qualified variant pattern "
+               "resolves to the same variant as the expression at file level. Tied to /repo on every run by generated multi-file programs whose output names the "
                "declaration reached by every use, compared with the model and with an independent environment-passing reference.",
     level_note="The step from resolve.rs to Abra.Names is checked by correspondence, not proved; declarations are functions, enums, "
                "interfaces and local binders (no structs / member functions). Trusts the harness and the Lean kernel.",
